@@ -2,7 +2,7 @@
 from . import common as C
 
 MANIFEST = dict(
-   technique="Lean 4 proof of the path laws over the container model with ABSTRACT members (per-container prefix law, composed by induction on nesting depth: resolution, single-fault locality, completeness) + differential correspondence on generated nestings (members of every kind) with planted single faults and with k = 2,3 faults planted side by side at three levels, on random nestings and on every parent kind x child kind chain of depth >= 3",
+   technique="Lean 4 proof of the path laws over the container model with ABSTRACT members (per-container prefix law, composed by induction on nesting depth: resolution, single-fault locality, completeness) + differential correspondence on generated nestings (members of every kind) with planted single faults and with k = 2,3 faults planted side by side at three levels, on random nestings and on every parent kind x child kind chain of depth >= 3; discriminated unions over every kind of option (a corrupted discriminator is a fault of the union's value), container-level Refine / Overwrite checks (Cont.runOw), go/ast structure fingerprints of the transcribed Go functions",
    text="Theorems: c05_paths_from_members (every issue a container reports is a container-level issue at a location of its own, or a member's issue with the member's location put in front — per container, all member environments), c05_path_resolves (by induction on nesting depth: every reported path resolves in the input or reaches the parent of a missing key, given that the leaves' paths do), c05_single_fault (if all asked members but those under one location accept, every path is that location or a prefix/extension inside it), c05_multi_fault (the same for any set of faulty locations, whatever the number of issues each faulty member reports), c05_tuple_all_issues / c05_struct_all_issues / c05_object_all_issues (ALL issues a member reports for one element / field appear, in order, each with the location put in front: none lost, none carrying a sibling's path), c05_nested_two_issues (object > tuple > object with two bad fields via parseF), c05_complete_patched with witnesses c05_slice_drops_child_path / c05_record_drops_key / c05_array_drops_child_path for today's code. The model is tied to /repo by the C02 nestings with planted faults (one, or 2-3 side by side: sibling members of the top container, sibling elements of one member, or inside ONE element of a member so that it reports >= 2 issues): the reported path set must equal the model's (predicted from the members' own answers) and be contained in the ideal complete paths; resolution, nearness to a planted location and coverage of the planted locations are also evaluated directly on the implementation's output.",
    note="Trusted: Lean kernel; axioms propext/Classical.choice/Quot.sound only; the Go harness (its path walker decides whether an int is an index or a key by walking the input), token codec and comparer. Each nesting level is judged against its own members' reported paths (the composed law is the Lean theorem). Hand-transcribed model validated on generated cases; same unmodelled representations as C02. array wraps a failing element in one invalid_element issue at [i] and drops the inner path: kept as known finding (the suite pins invalid_element).",
    design="DESIGN.md §5 C05; notes/C05.md")
